@@ -463,7 +463,7 @@ known.register('C09-wind-lstagger-byteorder', lambda spec, f: (
     f.clause == 'w2r-header' and f.klass == 'wind/lstagger'))
 known.register('C09-read-uamiv-midnight', lambda spec, f: (
     _fmt(spec, 'uamiv') and spec.get('reader') == 'read' and
-    K.crosses_midnight(spec, with_end=True) and
+    K.uamiv_read_time_class(spec) and
     f.clause in ('r2l-dim', 'r2l-read-raises', 'r2l-open-raises',
                  'r2l-values', 'r2l-nontermination')))
 known.register('C09-read-uamiv-emissions-squeeze', lambda spec, f: (
